@@ -181,7 +181,9 @@ func c05Body(s *simkit.Sim, rc *simkit.RunCtx) {
 		return
 	}
 	// ---- sequential replays: at once, later within the window, after the window ----
-	for _, wait := range []time.Duration{0, 2 * time.Second, 20 * time.Second, 20 * time.Minute} {
+	// (the waits add up: +0, +2, +4, +6, +8, +11, +21 s, +14 min, +16 min, +36 min: inside the presentation's validity, inside the
+	// clock-skew allowance after it, around the expiry of the stored nonce / jti, and long after)
+	for _, wait := range []time.Duration{0, 2 * time.Second, 2 * time.Second, 2 * time.Second, 2 * time.Second, 3 * time.Second, 10 * time.Second, 14 * time.Minute, 2 * time.Minute, 20 * time.Minute} {
 		if wait > 0 {
 			s.Advance(wait)
 		}
